@@ -17,20 +17,90 @@ Ltac dmatch H :=
 Lemma basic_eqb_spec a b : basic_eqb a b = true <-> a = b.
 Proof. split; [destruct a, b; simpl; congruence | intros ->; destruct b; reflexivity]. Qed.
 
-Lemma ty_eqb_spec a b : ty_eqb a b = true <-> a = b.
+(* induction on types with the induction hypothesis for the types inside
+   struct and function types *)
+Section ty_ind2.
+  Variable P : ty -> Prop.
+  Hypothesis HB : forall b, P (TBasic b).
+  Hypothesis HN : forall n b, P (TNamed n b).
+  Hypothesis HP : forall t, P t -> P (TPtr t).
+  Hypothesis HS : forall t, P t -> P (TSlice t).
+  Hypothesis HA : forall n t, P t -> P (TArray n t).
+  Hypothesis HM : forall k v, P k -> P v -> P (TMap k v).
+  Hypothesis HSt : forall fs, Forall P fs -> P (TStruct fs).
+  Hypothesis HF : forall ps rs, Forall P ps -> Forall P rs -> P (TFunc ps rs).
+  Hypothesis HAny : P TAny.
+  Hypothesis HD : forall n u, P u -> P (TDef n u).
+  Fixpoint ty_ind2 (t : ty) : P t :=
+    let all := fix all (l : list ty) : Forall P l :=
+      match l with [] => Forall_nil P | x :: r => Forall_cons x (ty_ind2 x) (all r) end in
+    match t with
+    | TBasic b => HB b
+    | TNamed n b => HN n b
+    | TPtr t => HP t (ty_ind2 t)
+    | TSlice t => HS t (ty_ind2 t)
+    | TArray n t => HA n t (ty_ind2 t)
+    | TMap k v => HM k v (ty_ind2 k) (ty_ind2 v)
+    | TStruct fs => HSt fs (all fs)
+    | TFunc ps rs => HF ps rs (all ps) (all rs)
+    | TAny => HAny
+    | TDef n u => HD n u (ty_ind2 u)
+    end.
+End ty_ind2.
+
+Lemma tys_eqb_unfold a b :
+  (fix go (xs ys : list ty) {struct xs} : bool :=
+     match xs, ys with
+     | [], [] => true
+     | x :: xs', y :: ys' => ty_eqb x y && go xs' ys'
+     | _, _ => false
+     end) a b = tys_eqb a b.
+Proof. revert b. induction a as [|x a IH]; intros [|y b]; simpl; try reflexivity. Qed.
+
+Lemma tys_eqb_spec_aux a :
+  Forall (fun x => forall y, ty_eqb x y = true <-> x = y) a ->
+  forall b, tys_eqb a b = true <-> a = b.
 Proof.
-  split.
-  - destruct a as [x|n x], b as [y|m y]; simpl; try discriminate.
-    + intros H. apply basic_eqb_spec in H. congruence.
-    + intros H. apply andb_prop in H. destruct H as [H1 H2].
-      apply N.eqb_eq in H1. apply basic_eqb_spec in H2. congruence.
-  - intros ->. destruct b as [y|m y]; simpl.
-    + apply basic_eqb_spec; reflexivity.
-    + rewrite N.eqb_refl. apply basic_eqb_spec; reflexivity.
+  induction 1 as [|x a Hx Ha IH]; intros [|y b]; simpl; split; intros H; try discriminate; try reflexivity.
+  - apply andb_prop in H. destruct H as [H1 H2]. apply Hx in H1. apply IH in H2. congruence.
+  - inv H. apply andb_true_intro. split; [apply Hx | apply IH]; reflexivity.
+Qed.
+
+Lemma ty_eqb_spec a : forall b, ty_eqb a b = true <-> a = b.
+Proof.
+  induction a as [b|n b|t IHa|t IHa|n t IHa|k v IHa1 IHa2|fs FS|ps rs PS RS| |n u IHa] using ty_ind2;
+    intros b0; destruct b0; simpl; rewrite ?tys_eqb_unfold;
+    split; intros HH; try discriminate; try reflexivity.
+  - apply basic_eqb_spec in HH. congruence.
+  - inv HH. apply basic_eqb_spec. reflexivity.
+  - apply andb_prop in HH. destruct HH as [H1 H2]. apply N.eqb_eq in H1. apply basic_eqb_spec in H2. congruence.
+  - inv HH. rewrite N.eqb_refl. apply basic_eqb_spec. reflexivity.
+  - apply IHa in HH. congruence.
+  - inv HH. apply IHa. reflexivity.
+  - apply IHa in HH. congruence.
+  - inv HH. apply IHa. reflexivity.
+  - apply andb_prop in HH. destruct HH as [H1 H2]. apply Z.eqb_eq in H1. apply IHa in H2. congruence.
+  - inv HH. rewrite Z.eqb_refl. apply IHa. reflexivity.
+  - apply andb_prop in HH. destruct HH as [H1 H2]. apply IHa1 in H1. apply IHa2 in H2. congruence.
+  - inv HH. apply andb_true_intro. split; [apply IHa1 | apply IHa2]; reflexivity.
+  - apply (tys_eqb_spec_aux fs FS) in HH. congruence.
+  - inv HH. apply (tys_eqb_spec_aux fs0 FS). reflexivity.
+  - apply andb_prop in HH. destruct HH as [H1 H2].
+    apply (tys_eqb_spec_aux ps PS) in H1. apply (tys_eqb_spec_aux rs RS) in H2. congruence.
+  - inv HH. apply andb_true_intro. split; [apply (tys_eqb_spec_aux ps0 PS) | apply (tys_eqb_spec_aux rs0 RS)]; reflexivity.
+  - apply andb_prop in HH. destruct HH as [H1 H2]. apply N.eqb_eq in H1. apply IHa in H2. congruence.
+  - inv HH. rewrite N.eqb_refl. apply IHa. reflexivity.
 Qed.
 
 Lemma ty_eqb_refl t : ty_eqb t t = true.
 Proof. apply ty_eqb_spec; reflexivity. Qed.
+
+Lemma ty_eqb_false a b : ty_eqb a b = false <-> a <> b.
+Proof.
+  split.
+  - intros H E. apply ty_eqb_spec in E. congruence.
+  - intros H. destruct (ty_eqb a b) eqn:E; [|reflexivity]. apply ty_eqb_spec in E. contradiction.
+Qed.
 
 Lemma bclass_eqb_spec a b : bclass_eqb a b = true <-> a = b.
 Proof. split; [destruct a, b; simpl; congruence | intros ->; destruct b; reflexivity]. Qed.
@@ -103,22 +173,147 @@ Qed.
 
 (* -------------------------------------------- implicit conversion, assignment *)
 
+Lemma is_iface_spec t : is_iface t = true <-> IsIface t.
+Proof. unfold is_iface, IsIface. destruct (underlying t); split; intros H; try discriminate; reflexivity. Qed.
+
+Lemma is_iface_false t : is_iface t = false <-> ~ IsIface t.
+Proof.
+  split.
+  - intros H I. apply is_iface_spec in I. congruence.
+  - intros H. destruct (is_iface t) eqn:E; [|reflexivity]. apply is_iface_spec in E. contradiction.
+Qed.
+
+Lemma is_named_spec t : is_named t = true <-> Named t.
+Proof. destruct t; simpl; split; intros H; try discriminate; try constructor; inv H. Qed.
+
+Lemma is_named_false t : is_named t = false <-> ~ Named t.
+Proof.
+  split.
+  - intros H I. apply is_named_spec in I. congruence.
+  - intros H. destruct (is_named t) eqn:E; [|reflexivity]. apply is_named_spec in E. contradiction.
+Qed.
+
+Lemma nillable_spec t : nillable t = true <-> Nillable t.
+Proof.
+  unfold nillable. split.
+  - intros H. destruct (underlying t) eqn:U; try discriminate.
+    + eapply Ni_ptr; eauto.
+    + eapply Ni_slice; eauto.
+    + eapply Ni_map; eauto.
+    + eapply Ni_func; eauto.
+    + apply Ni_iface. exact U.
+  - intros H. inv H; rewrite H0; reflexivity.
+Qed.
+
+Lemma nillable_false t : nillable t = false <-> ~ Nillable t.
+Proof.
+  split.
+  - intros H I. apply nillable_spec in I. congruence.
+  - intros H. destruct (nillable t) eqn:E; [|reflexivity]. apply nillable_spec in E. contradiction.
+Qed.
+
+Lemma comparable_all_unfold fs :
+  (fix all (l : list ty) : bool := match l with [] => true | x :: r => comparable x && all r end) fs
+  = forallb comparable fs.
+Proof. induction fs; simpl; congruence. Qed.
+
+Lemma comparable_spec t : comparable t = true <-> Comparable t.
+Proof.
+  induction t as [b|n b|t IHa|t IHa|n t IHa|k v IHa1 IHa2|fs FS|ps rs PS RS| |n u IHa] using ty_ind2;
+    simpl; rewrite ?comparable_all_unfold; split; intros HH; try discriminate; try constructor; try (inv HH; fail).
+  - apply IHa. assumption.
+  - inv HH. apply IHa. assumption.
+  - rewrite forallb_forall in HH. rewrite Forall_forall in *. intros x I. apply FS; auto.
+  - inv HH. apply forallb_forall. rewrite Forall_forall in *. intros x I. apply FS; auto.
+  - apply IHa. assumption.
+  - inv HH. apply IHa. assumption.
+Qed.
+
+Lemma comparable_false t : comparable t = false <-> ~ Comparable t.
+Proof.
+  split.
+  - intros H I. apply comparable_spec in I. congruence.
+  - intros H. destruct (comparable t) eqn:E; [|reflexivity]. apply comparable_spec in E. contradiction.
+Qed.
+
+Lemma assignable_ty_spec v t : assignable_ty v t = true <-> AssignableTy v t.
+Proof.
+  unfold assignable_ty. split.
+  - intros H. apply orb_prop in H. destruct H as [H|H]; [apply orb_prop in H; destruct H as [H|H]|].
+    + apply ty_eqb_spec in H. subst. constructor.
+    + apply andb_prop in H. destruct H as [H1 H2]. apply ty_eqb_spec in H1.
+      apply ATy_underlying; [assumption|].
+      apply orb_prop in H2. destruct H2 as [H2|H2]; [left|right]; apply is_named_false;
+        apply negb_true_iff in H2; exact H2.
+    + apply ATy_iface. apply is_iface_spec. assumption.
+  - intros H. inv H.
+    + rewrite ty_eqb_refl. reflexivity.
+    + assert (E : ty_eqb (underlying v) (underlying t) = true) by (apply ty_eqb_spec; assumption).
+      rewrite E. destruct H1 as [N|N]; apply is_named_false in N; rewrite N; simpl; rewrite ?orb_true_r; reflexivity.
+    + apply is_iface_spec in H0. rewrite H0. rewrite orb_true_r. reflexivity.
+Qed.
+
+Lemma assignable_ty_false v t : assignable_ty v t = false <-> ~ AssignableTy v t.
+Proof.
+  split.
+  - intros H I. apply assignable_ty_spec in I. congruence.
+  - intros H. destruct (assignable_ty v t) eqn:E; [|reflexivity]. apply assignable_ty_spec in E. contradiction.
+Qed.
+
+Lemma conv_basic_spec k c t : conv_basic k c t = true <-> ConvBasic k c t.
+Proof.
+  unfold conv_basic. split.
+  - intros H.
+    destruct k; simpl in H; destruct (tclass t) eqn:C; try discriminate;
+      try (constructor; assumption);
+      destruct c as [[q|]|]; try discriminate;
+      apply const_fits_spec in H;
+      apply CB_num; unfold Numeric; simpl; auto; rewrite C; auto.
+  - intros H. inv H.
+    + simpl. rewrite H0. reflexivity.
+    + simpl. rewrite H0. reflexivity.
+    + apply const_fits_spec in H2. unfold Numeric in H0, H1.
+      destruct H0 as [K|K], H1 as [C|C]; rewrite K, C, H2; reflexivity.
+Qed.
+
+Lemma conv_basic_not_nil c t : ~ ConvBasic UNil c t.
+Proof. intros H. inv H. unfold Numeric in H0. simpl in H0. destruct H0; discriminate. Qed.
+
+Lemma tclass_basic_under t : tclass t <> KComp -> exists b, underlying t = TBasic b.
+Proof. destruct t; simpl; intros H; try (exfalso; apply H; reflexivity); eauto. Qed.
+
+Lemma conv_basic_not_iface k c t : ConvBasic k c t -> is_iface t = false.
+Proof.
+  intros H. assert (T : tclass t <> KComp).
+  { inv H; try congruence. unfold Numeric in H1. destruct H1; congruence. }
+  apply tclass_basic_under in T. destruct T as [b U]. unfold is_iface. rewrite U. reflexivity.
+Qed.
+
 Lemma conv_untyped_spec k c t r :
   conv_untyped k c t = Some r <-> (ConvUntyped k c t /\ r = EVal (VT t) c).
 Proof.
   unfold conv_untyped. split.
   - intros H.
-    destruct k; simpl in H; destruct (class_of (under t)) eqn:C; try discriminate;
-      try (inv H; split; [constructor; assumption|reflexivity]);
-      destruct c as [[q|]|]; try discriminate;
-      destruct (const_fits q (under t)) eqn:F; try discriminate; inv H;
-      (split; [|reflexivity]); apply const_fits_spec in F;
-      apply CU_num; unfold Numeric; simpl; auto; rewrite C; auto.
+    assert (G : k = UNil \/ k <> UNil) by (destruct k; auto; right; discriminate).
+    destruct G as [->|NK].
+    + destruct (nillable t) eqn:N; [|discriminate]. inv H. split; [|reflexivity].
+      apply CU_nil. apply nillable_spec. assumption.
+    + assert (H2 : (if is_iface t then if conv_basic k c (default_ty k) then Some (EVal (VT t) c) else None
+                    else if conv_basic k c t then Some (EVal (VT t) c) else None) = Some r)
+        by (destruct k; try exact H; contradiction).
+      clear H. destruct (is_iface t) eqn:I.
+      * destruct (conv_basic k c (default_ty k)) eqn:B; [|discriminate]. inv H2. split; [|reflexivity].
+        apply CU_iface; [apply is_iface_spec | apply conv_basic_spec]; assumption.
+      * destruct (conv_basic k c t) eqn:B; [|discriminate]. inv H2. split; [|reflexivity].
+        apply CU_basic. apply conv_basic_spec. assumption.
   - intros [H ->]. inv H.
-    + simpl. rewrite H0. reflexivity.
-    + simpl. rewrite H0. reflexivity.
-    + apply const_fits_spec in H2. unfold Numeric in H0, H1.
-      destruct H0 as [K|K], H1 as [C|C]; rewrite K, C, H2; reflexivity.
+    + pose proof (conv_basic_not_iface _ _ _ H0) as I. apply conv_basic_spec in H0.
+      destruct k; rewrite ?I, ?H0; try reflexivity.
+      apply conv_basic_spec in H0. exfalso. eapply conv_basic_not_nil; eauto.
+    + apply nillable_spec in H0. rewrite H0. reflexivity.
+    + apply is_iface_spec in H0. apply conv_basic_spec in H1.
+      destruct k; rewrite ?H0, ?H1; try reflexivity.
+      apply conv_basic_spec in H1. exfalso. eapply conv_basic_not_nil; eauto.
 Qed.
 
 Lemma conv_untyped_none k c t : conv_untyped k c t = None <-> ~ ConvUntyped k c t.
@@ -133,13 +328,20 @@ Lemma assign_to_spec e t : assign_to e t = true <-> Assignable e t.
 Proof.
   unfold assign_to. split.
   - intros H. destruct e as [[t'|k] c|ts]; try discriminate.
-    + apply ty_eqb_spec in H. subst. constructor.
+    + apply assignable_ty_spec in H. constructor. assumption.
     + destruct (conv_untyped k c t) eqn:E; [|discriminate].
       apply conv_untyped_spec in E. destruct E. constructor. assumption.
   - intros H. inv H.
-    + apply ty_eqb_refl.
+    + apply assignable_ty_spec. assumption.
     + assert (E: conv_untyped k c t = Some (EVal (VT t) c)) by (apply conv_untyped_spec; auto).
       rewrite E. reflexivity.
+Qed.
+
+Lemma assign_to_false e t : assign_to e t = false <-> ~ Assignable e t.
+Proof.
+  split.
+  - intros H I. apply assign_to_spec in I. congruence.
+  - intros H. destruct (assign_to e t) eqn:E; [|reflexivity]. apply assign_to_spec in E. contradiction.
 Qed.
 
 Lemma default_of_spec e t : default_of e = Some t <-> DefaultOf e t.
@@ -194,9 +396,9 @@ Proof.
   - intros H. destruct o; simpl in H; try discriminate;
       try (apply is_numeric_spec in H; constructor; assumption);
       try (apply bclass_eqb_spec in H; subst; constructor).
-    constructor. destruct k; try discriminate; congruence.
+    constructor. unfold Numeric. destruct k; try discriminate; auto.
   - intros H. inv H; simpl; try reflexivity; try (apply is_numeric_spec; assumption).
-    destruct k; congruence.
+    unfold Numeric in H0. destruct H0 as [K|[K|K]]; rewrite K; reflexivity.
 Qed.
 
 Lemma div_zero_spec o k c1 c2 : div_zero_b o k c1 c2 = true <-> DivByZero o k c1 c2.
@@ -265,7 +467,7 @@ Proof.
   apply shift_count_spec in SC.
   destruct va as [t|k], ca as [[q|]|]; try discriminate.
   - (* typed constant *)
-    destruct (bclass_eqb (class_of (under t)) KInt) eqn:L; [|discriminate].
+    destruct (bclass_eqb (tclass t) KInt) eqn:L; [|discriminate].
     apply bclass_eqb_spec in L.
     destruct (qint q) as [x|] eqn:Qx; [|discriminate]. apply qint_spec in Qx.
     destruct cb as [[qs|]|].
@@ -276,7 +478,7 @@ Proof.
     + inv SC.
     + inv H. eapply Sh_typed_const_var; eauto.
   - (* typed variable *)
-    destruct (bclass_eqb (class_of (under t)) KInt) eqn:L; [|discriminate].
+    destruct (bclass_eqb (tclass t) KInt) eqn:L; [|discriminate].
     apply bclass_eqb_spec in L. inv H. apply Sh_var; assumption.
   - (* untyped constant *)
     destruct (is_numeric (kind_class k)) eqn:L; [|discriminate].
@@ -320,49 +522,125 @@ Proof. split; [apply tc_shift_sound | apply tc_shift_complete]. Qed.
 Lemma comparison_not_shift o : is_comparison o = true -> is_shift o = false.
 Proof. destruct o; cbv; congruence. Qed.
 
+Lemma cmp_compat_spec a b c1 c2 : cmp_compat a b = Some (c1, c2) <-> CmpCompat a b c1 c2.
+Proof.
+  unfold cmp_compat. split.
+  - intros H.
+    assert (TT : (exists t1 ca t2 cb, a = EVal (VT t1) ca /\ b = EVal (VT t2) cb) \/
+                 (match match_types a b with Some (_, c1, c2) => Some (c1, c2) | None => None end = Some (c1, c2))).
+    { destruct a as [[t1|k1] ca|?], b as [[t2|k2] cb|?]; try (right; exact H). left. eauto 8. }
+    destruct TT as [[t1 [ca [t2 [cb [-> ->]]]]]|M].
+    + destruct (assignable_ty t1 t2 || assignable_ty t2 t1) eqn:A; [|discriminate]. inv H.
+      apply CC_typed. apply orb_prop in A. destruct A as [A|A]; [left|right]; apply assignable_ty_spec; assumption.
+    + destruct (match_types a b) as [[[v x1] x2]|] eqn:MT; [|discriminate]. inv M.
+      apply match_types_spec in MT. eapply CC_untyped; eauto.
+  - intros H. inv H.
+    + destruct H0 as [A|A]; apply assignable_ty_spec in A; rewrite A; rewrite ?orb_true_r; reflexivity.
+    + pose proof H0 as OP. apply match_types_spec in H0. inv OP; try (rewrite H0; reflexivity).
+      assert (A : assignable_ty t t = true) by (apply assignable_ty_spec; constructor).
+      rewrite A. reflexivity.
+Qed.
+
+Lemma is_nil_operand_spec e : is_nil_operand e = true <-> exists c, e = EVal (VU UNil) c.
+Proof.
+  destruct e as [[t|k] c|ts]; simpl; split; intros H; try discriminate; try (destruct H as [c' H]; discriminate).
+  - destruct k; try discriminate. eauto.
+  - destruct H as [c' H]. inv H. reflexivity.
+Qed.
+
+Lemma is_nil_operand_false e : is_nil_operand e = false <-> (forall c, e <> EVal (VU UNil) c).
+Proof.
+  split.
+  - intros H c E. assert (is_nil_operand e = true) by (apply is_nil_operand_spec; eauto). congruence.
+  - intros H. destruct (is_nil_operand e) eqn:E; [|reflexivity]. apply is_nil_operand_spec in E.
+    destruct E as [c E]. exfalso. eapply H; eauto.
+Qed.
+
+Lemma eq_operand_ok_spec other e : eq_operand_ok other e = true <-> EqOperand other e.
+Proof.
+  unfold eq_operand_ok. split.
+  - intros H. destruct e as [[t|k] c|ts]; try discriminate.
+    + apply orb_prop in H. destruct H as [H|H].
+      * apply EO_comparable. apply comparable_spec. assumption.
+      * apply andb_prop in H. destruct H as [H1 H2]. apply is_nil_operand_spec in H1. destruct H1 as [c2 ->].
+        eapply EO_with_nil; [reflexivity | apply nillable_spec; assumption].
+    + destruct k; try (apply EO_untyped; discriminate).
+      simpl in H. apply EO_nil. apply is_nil_operand_false.
+      destruct (is_nil_operand other); [discriminate|reflexivity].
+  - intros H. inv H.
+    + apply comparable_spec in H0. rewrite H0. reflexivity.
+    + apply nillable_spec in H1. rewrite H1. simpl. rewrite orb_true_r. reflexivity.
+    + destruct k; try reflexivity. contradiction.
+    + apply is_nil_operand_false in H0. rewrite H0. reflexivity.
+Qed.
+
+Lemma ordered_operand_spec e : ordered_operand e = true <-> OrderedOperand e.
+Proof.
+  unfold ordered_operand. split.
+  - intros H. destruct e as [v c|ts]; [|discriminate]. constructor.
+    destruct (vty_class v); try discriminate; auto.
+  - intros H. inv H. destruct H0 as [K|[K|K]]; rewrite K; reflexivity.
+Qed.
+
+Lemma tc_compare_sound o a b r : is_comparison o = true -> tc_compare o a b = Some r -> Binary o a b r.
+Proof.
+  unfold tc_compare. intros C H.
+  destruct (cmp_compat a b) as [[c1 c2]|] eqn:M; [|discriminate]. apply cmp_compat_spec in M.
+  destruct (is_order o) eqn:O.
+  - destruct (ordered_operand a && ordered_operand b) eqn:OO; [|discriminate]. inv H.
+    apply andb_prop in OO. destruct OO as [O1 O2].
+    apply ordered_operand_spec in O1. apply ordered_operand_spec in O2.
+    eapply B_compare; eauto; intros X; congruence.
+  - destruct (eq_operand_ok b a && eq_operand_ok a b) eqn:OO; [|discriminate]. inv H.
+    apply andb_prop in OO. destruct OO as [O1 O2].
+    apply eq_operand_ok_spec in O1. apply eq_operand_ok_spec in O2.
+    eapply B_compare; eauto; intros X; congruence.
+Qed.
+
 Lemma tc_binary_sound o a b r : tc_binary o a b = Some r -> Binary o a b r.
 Proof.
   unfold tc_binary. intros H.
   destruct (is_shift o) eqn:S.
   - apply B_shift; [assumption|apply tc_shift_sound; assumption].
-  - destruct (match_types a b) as [[[v c1] c2]|] eqn:M; [|discriminate].
+  - destruct (is_comparison o) eqn:C; [apply tc_compare_sound; assumption|].
+    destruct (match_types a b) as [[[v c1] c2]|] eqn:M; [|discriminate].
     apply match_types_spec in M.
-    destruct (is_comparison o) eqn:C.
-    + destruct (is_order o && bclass_eqb (vty_class v) KBool) eqn:OB; [discriminate|]. inv H.
-      eapply B_compare; eauto. intros Ho Hk. rewrite Ho, Hk in OB. discriminate.
-    + destruct (op_defined o (vty_class v)) eqn:D; simpl in H; [|discriminate].
-      destruct (div_zero_b o (vty_class v) c1 c2) eqn:Z; [discriminate|].
-      apply op_defined_spec in D. apply div_zero_false in Z.
-      destruct c1 as [[q1|]|], c2 as [[q2|]|].
-      * destruct (qbin o (vty_class v) q1 q2) as [q|] eqn:Qb; [|discriminate].
-        apply mk_const_spec in H. destruct H as [H1 ->]. eapply B_const_num; eauto.
-      * inv H. eapply B_const_other; eauto.
-      * inv H. eapply B_value; eauto.
-      * inv H. eapply B_const_other; eauto.
-      * inv H. eapply B_const_other; eauto.
-      * inv H. eapply B_value; eauto.
-      * inv H. eapply B_value; eauto.
-      * inv H. eapply B_value; eauto.
-      * inv H. eapply B_value; eauto.
+    destruct (op_defined o (vty_class v)) eqn:D; simpl in H; [|discriminate].
+    destruct (div_zero_b o (vty_class v) c1 c2) eqn:Z; [discriminate|].
+    apply op_defined_spec in D. apply div_zero_false in Z.
+    destruct c1 as [[q1|]|], c2 as [[q2|]|].
+    * destruct (qbin o (vty_class v) q1 q2) as [q|] eqn:Qb; [|discriminate].
+      apply mk_const_spec in H. destruct H as [H1 ->]. eapply B_const_num; eauto.
+    * inv H. eapply B_const_other; eauto.
+    * inv H. eapply B_value; eauto.
+    * inv H. eapply B_const_other; eauto.
+    * inv H. eapply B_const_other; eauto.
+    * inv H. eapply B_value; eauto.
+    * inv H. eapply B_value; eauto.
+    * inv H. eapply B_value; eauto.
+    * inv H. eapply B_value; eauto.
 Qed.
 
 Lemma tc_binary_complete o a b r : Binary o a b r -> tc_binary o a b = Some r.
 Proof.
   intros H. inv H; unfold tc_binary.
   - rewrite H0. apply tc_shift_complete. assumption.
-  - rewrite (comparison_not_shift _ H0). apply match_types_spec in H1. rewrite H1, H0.
-    destruct (is_order o) eqn:Ho; simpl; [|reflexivity].
-    destruct (bclass_eqb (vty_class v) KBool) eqn:K; [|reflexivity].
-    apply bclass_eqb_spec in K. exfalso. apply H2; auto.
-  - rewrite H0. apply match_types_spec in H2. rewrite H2, H1.
+  - rewrite (comparison_not_shift _ H0), H0. unfold tc_compare.
+    apply cmp_compat_spec in H1. rewrite H1.
+    destruct (is_order o) eqn:Ho.
+    + destruct (H2 eq_refl) as [O1 O2].
+      apply ordered_operand_spec in O1. apply ordered_operand_spec in O2. rewrite O1, O2. reflexivity.
+    + destruct (H3 eq_refl) as [O1 O2].
+      apply eq_operand_ok_spec in O1. apply eq_operand_ok_spec in O2. rewrite O1, O2. reflexivity.
+  - rewrite H0, H1. apply match_types_spec in H2. rewrite H2.
     apply op_defined_spec in H3. rewrite H3. simpl.
     apply div_zero_false in H4. rewrite H4.
     destruct c1 as [[?|]|], c2 as [[?|]|]; simpl in H5; try discriminate; reflexivity.
-  - rewrite H0. apply match_types_spec in H2. rewrite H2, H1.
+  - rewrite H0, H1. apply match_types_spec in H2. rewrite H2.
     apply op_defined_spec in H3. rewrite H3. simpl.
     apply div_zero_false in H4. rewrite H4, H5.
     apply mk_const_spec. auto.
-  - rewrite H0. apply match_types_spec in H2. rewrite H2, H1.
+  - rewrite H0, H1. apply match_types_spec in H2. rewrite H2.
     apply op_defined_spec in H3. rewrite H3. simpl.
     apply div_zero_false in H4. rewrite H4.
     destruct H5; subst; [|destruct c1]; reflexivity.
@@ -414,10 +692,51 @@ Proof. split; [apply tc_unary_sound | apply tc_unary_complete]. Qed.
 
 (* --------------------------------------------------------------- conversions *)
 
+Lemma is_bytes_or_runes_spec t : is_bytes_or_runes t = true <-> BytesOrRunes t.
+Proof.
+  unfold is_bytes_or_runes, BytesOrRunes. split.
+  - intros H. destruct (underlying t) eqn:U; try discriminate. exists t0. split; [reflexivity|].
+    destruct (underlying t0) eqn:U0; try discriminate. destruct b; try discriminate; auto.
+  - intros [e [U [U0|U0]]]; rewrite U, U0; reflexivity.
+Qed.
+
+Lemma is_bytes_or_runes_false t : is_bytes_or_runes t = false <-> ~ BytesOrRunes t.
+Proof.
+  split.
+  - intros H I. apply is_bytes_or_runes_spec in I. congruence.
+  - intros H. destruct (is_bytes_or_runes t) eqn:E; [|reflexivity]. apply is_bytes_or_runes_spec in E. contradiction.
+Qed.
+
+Lemma convertible_spec t2 t : convertible t2 t = true <-> Convertible t2 t.
+Proof.
+  unfold convertible, Convertible. rewrite !orb_true_iff, !andb_true_iff.
+  rewrite assignable_ty_spec, ty_eqb_spec, !is_numeric_spec, !bclass_eqb_spec, !is_bytes_or_runes_spec.
+  assert (PT : match t2, t with TPtr a, TPtr b => ty_eqb (underlying a) (underlying b) | _, _ => false end = true
+               <-> exists a b, t2 = TPtr a /\ t = TPtr b /\ underlying a = underlying b).
+  { split.
+    - intros H. destruct t2; try discriminate. destruct t; try discriminate. apply ty_eqb_spec in H. eauto.
+    - intros [a [b [-> [-> H]]]]. apply ty_eqb_spec. assumption. }
+  rewrite PT. tauto.
+Qed.
+
+Lemma tclass_not_comp_facts t : tclass t <> KComp -> is_iface t = false /\ is_bytes_or_runes t = false.
+Proof.
+  intros T. apply tclass_basic_under in T. destruct T as [b U]. unfold is_iface, is_bytes_or_runes. rewrite U. auto.
+Qed.
+
 Lemma tc_convert_sound t a r : tc_convert t a = Some r -> Convert t a r.
 Proof.
   unfold tc_convert. intros H. destruct a as [v [c|]|?]; [| |discriminate].
-  - assert (H' : match vty_class v, class_of (under t), c with
+  - destruct (is_iface t) eqn:I.
+    { apply is_iface_spec in I. destruct v as [t2|k].
+      - inv H. apply Cv_const_iface_typed. assumption.
+      - destruct (conv_basic k (Some c) (default_ty k)) eqn:B; [|discriminate]. inv H.
+        apply Cv_const_iface_untyped; [assumption | apply conv_basic_spec; assumption]. }
+    destruct (bclass_eqb (vty_class v) KStr && is_bytes_or_runes t) eqn:BR.
+    { assert (R : r = EVal (VT t) None) by (destruct v; congruence). subst r. clear H.
+      apply andb_prop in BR. destruct BR as [B1 B2]. apply bclass_eqb_spec in B1.
+      apply is_bytes_or_runes_spec in B2. apply Cv_const_bytes; assumption. }
+    assert (H' : match vty_class v, tclass t, c with
                  | (KInt | KFloat), (KInt | KFloat), CNum q =>
                    if const_fits q (under t) then Some (EVal (VT t) (Some c)) else None
                  | KInt, KStr, CNum _ => Some (EVal (VT t) (Some COther))
@@ -426,47 +745,438 @@ Proof.
                  end = Some r) by (destruct v; exact H).
     clear H. rename H' into H.
     destruct c as [q|].
-    + destruct (vty_class v) eqn:Kv; destruct (class_of (under t)) eqn:Kt; try discriminate;
+    + destruct (vty_class v) eqn:Kv; destruct (tclass t) eqn:Kt; try discriminate;
         first [ inv H; apply Cv_const_int_string; assumption
               | destruct (const_fits q (under t)) eqn:F; [|discriminate]; inv H;
                 apply const_fits_spec in F; apply Cv_const_num; unfold Numeric; auto; rewrite ?Kv, ?Kt; auto ].
-    + destruct (vty_class v) eqn:Kv; destruct (class_of (under t)) eqn:Kt; try discriminate;
+    + destruct (vty_class v) eqn:Kv; destruct (tclass t) eqn:Kt; try discriminate;
         (inv H; apply Cv_const_same; [rewrite Kv; auto | congruence]).
   - destruct v as [t'|k'].
-    + destruct (basic_eqb (under t') (under t) || is_numeric (class_of (under t')) && is_numeric (class_of (under t))
-                || bclass_eqb (class_of (under t')) KInt && bclass_eqb (class_of (under t)) KStr) eqn:E; [|discriminate].
-      inv H. apply Cv_value.
-      apply orb_prop in E. destruct E as [E|E]; [apply orb_prop in E; destruct E as [E|E]|].
-      * left. apply basic_eqb_spec. assumption.
-      * right. left. apply andb_prop in E. destruct E. split; apply is_numeric_spec; assumption.
-      * right. right. apply andb_prop in E. destruct E. split; apply bclass_eqb_spec; assumption.
-    + destruct (bclass_eqb (kind_class k') KBool && bclass_eqb (class_of (under t)) KBool) eqn:E; [|discriminate].
-      inv H. apply andb_prop in E. destruct E. apply Cv_untyped_bool; apply bclass_eqb_spec; assumption.
+    + destruct (convertible t' t) eqn:E; [|discriminate]. inv H. apply Cv_value. apply convertible_spec. assumption.
+    + destruct (kind_class k') eqn:K; try discriminate.
+      * destruct (bclass_eqb (tclass t) KBool || is_iface t) eqn:E; [|discriminate]. inv H.
+        apply Cv_untyped_bool; [assumption|]. apply orb_prop in E. destruct E as [E|E];
+          [left; apply bclass_eqb_spec | right; apply is_iface_spec]; assumption.
+      * destruct (nillable t) eqn:E; [|discriminate]. inv H.
+        destruct k'; try discriminate. apply Cv_nil. apply nillable_spec. assumption.
 Qed.
 
 Lemma tc_convert_complete t a r : Convert t a r -> tc_convert t a = Some r.
 Proof.
   intros H. inv H; unfold tc_convert.
-  - apply const_fits_spec in H2. unfold Numeric in H0, H1.
-    destruct v; simpl in *; destruct H0 as [K|K], H1 as [C|C]; rewrite K, C, H2; reflexivity.
-  - destruct v; simpl in *; rewrite H0, H1; reflexivity.
-  - destruct v; simpl in *; rewrite H1; destruct H0 as [K|K]; rewrite K; reflexivity.
-  - destruct H0 as [E|[[N1 N2]|[K1 K2]]].
-    + apply basic_eqb_spec in E. rewrite E. reflexivity.
-    + apply is_numeric_spec in N1. apply is_numeric_spec in N2. rewrite N1, N2.
-      rewrite orb_true_r. reflexivity.
-    + rewrite K1, K2. simpl. rewrite !orb_true_r. reflexivity.
-  - rewrite H0, H1. reflexivity.
+  - apply is_iface_spec in H0. rewrite H0. reflexivity.
+  - apply is_iface_spec in H0. rewrite H0. apply conv_basic_spec in H1. rewrite H1. reflexivity.
+  - destruct (is_iface t) eqn:I.
+    + exfalso. apply is_iface_spec in I. destruct H1 as [e [U _]]. unfold IsIface in I. congruence.
+    + apply bclass_eqb_spec in H0. apply is_bytes_or_runes_spec in H1.
+      destruct v; simpl in *; rewrite H0, H1; reflexivity.
+  - assert (T : tclass t <> KComp) by (unfold Numeric in H1; destruct H1; congruence).
+    destruct (tclass_not_comp_facts t T) as [I B].
+    apply const_fits_spec in H2. unfold Numeric in H0, H1.
+    destruct v; simpl in *; rewrite I, B, andb_false_r; destruct H0 as [K|K], H1 as [C|C]; rewrite K, C, H2; reflexivity.
+  - assert (T : tclass t <> KComp) by congruence.
+    destruct (tclass_not_comp_facts t T) as [I B].
+    destruct v; simpl in *; rewrite I, B, andb_false_r; rewrite H0, H1; reflexivity.
+  - assert (T : tclass t <> KComp) by (destruct H0; congruence).
+    destruct (tclass_not_comp_facts t T) as [I B].
+    destruct v; simpl in *; rewrite I, B, andb_false_r; rewrite H1; destruct H0 as [K|K]; rewrite K; reflexivity.
+  - apply convertible_spec in H0. rewrite H0. reflexivity.
+  - apply nillable_spec in H0. simpl. rewrite H0. reflexivity.
+  - rewrite H0. destruct H1 as [K|K].
+    + rewrite K. reflexivity.
+    + apply is_iface_spec in K. rewrite K, orb_true_r. reflexivity.
 Qed.
 
 Lemma tc_convert_spec t a r : tc_convert t a = Some r <-> Convert t a r.
 Proof. split; [apply tc_convert_sound | apply tc_convert_complete]. Qed.
 
+(* ------------------------------------- index, slice, selector, builtins *)
+
+Lemma index_ok_spec i z : index_ok i = Some z <-> IndexOK i z.
+Proof.
+  unfold index_ok. split.
+  - intros H. destruct i as [[t|k] [[q|]|]|?]; try discriminate.
+    + destruct (bclass_eqb (tclass t) KInt) eqn:K; [|discriminate]. apply bclass_eqb_spec in K.
+      destruct (qint q) as [x|] eqn:Q; [|discriminate]. destruct (Z.leb 0 x) eqn:L; [|discriminate]. inv H.
+      apply qint_spec in Q. apply Z.leb_le in L. apply IO_typed_const; assumption.
+    + destruct (bclass_eqb (tclass t) KInt) eqn:K; [|discriminate]. apply bclass_eqb_spec in K. inv H.
+      apply IO_var; assumption.
+    + destruct (is_numeric (kind_class k) && const_fits q BInt) eqn:K; [|discriminate].
+      apply andb_prop in K. destruct K as [K1 K2]. apply is_numeric_spec in K1. apply const_fits_spec in K2.
+      destruct (qint q) as [x|] eqn:Q; [|discriminate]. destruct (Z.leb 0 x) eqn:L; [|discriminate]. inv H.
+      apply qint_spec in Q. apply Z.leb_le in L. apply IO_untyped_const; assumption.
+  - intros H. inv H.
+    + apply bclass_eqb_spec in H0. rewrite H0. reflexivity.
+    + apply bclass_eqb_spec in H0. apply qint_spec in H1. apply Z.leb_le in H2. rewrite H0, H1, H2. reflexivity.
+    + apply is_numeric_spec in H0. apply const_fits_spec in H1. apply qint_spec in H2. apply Z.leb_le in H3.
+      rewrite H0, H1, H2, H3. reflexivity.
+Qed.
+
+Lemma index_ok_none i : index_ok i = None <-> (forall z, ~ IndexOK i z).
+Proof.
+  split.
+  - intros H z I. apply index_ok_spec in I. congruence.
+  - intros H. destruct (index_ok i) as [z|] eqn:E; [|reflexivity]. apply index_ok_spec in E. exfalso. eapply H; eauto.
+Qed.
+
+Lemma in_bound_spec z n incl : in_bound z n incl = true <-> InBound z n incl.
+Proof.
+  unfold in_bound, InBound. destruct z as [z|]; [|tauto]. destruct incl; [apply Z.leb_le | apply Z.ltb_lt].
+Qed.
+
+Lemma bounds_ordered_spec zl zh : bounds_ordered zl zh = true <-> BoundsOrdered zl zh.
+Proof. unfold bounds_ordered, BoundsOrdered. destruct zl, zh; try tauto. apply Z.leb_le. Qed.
+
+Lemma array_of_spec t n e : array_of t = Some (n, e) <-> ArrayOf t n e.
+Proof.
+  unfold array_of, ArrayOf. split.
+  - intros H. destruct (underlying t) eqn:U; try discriminate.
+    + destruct (underlying t0) eqn:U0; try discriminate. inv H. right. eauto.
+    + inv H. left. reflexivity.
+  - intros [H|[p [H1 H2]]].
+    + rewrite H. reflexivity.
+    + rewrite H1, H2. reflexivity.
+Qed.
+
+Lemma array_of_none t : array_of t = None <-> (forall n e, ~ ArrayOf t n e).
+Proof.
+  split.
+  - intros H n e A. apply array_of_spec in A. congruence.
+  - intros H. destruct (array_of t) as [[n e]|] eqn:E; [|reflexivity]. apply array_of_spec in E. exfalso. eapply H; eauto.
+Qed.
+
+Lemma struct_of_spec t fs : (exists b, struct_of t = Some (fs, b)) <-> StructOf t fs.
+Proof.
+  unfold struct_of, StructOf. split.
+  - intros [b H]. destruct (underlying t) eqn:U; try discriminate.
+    + destruct (underlying t0) eqn:U0; try discriminate. inv H. right. eauto.
+    + inv H. left. reflexivity.
+  - intros [H|[p [H1 H2]]].
+    + rewrite H. eauto.
+    + rewrite H1, H2. eauto.
+Qed.
+
+Lemma is_string_ty_spec t : is_string_ty t = true <-> tclass t = KStr.
+Proof. unfold is_string_ty. apply bclass_eqb_spec. Qed.
+
+Lemma string_ty_under t : tclass t = KStr -> exists b, underlying t = TBasic b.
+Proof. intros H. apply tclass_basic_under. congruence. Qed.
+
+Lemma array_of_basic t b : underlying t = TBasic b -> array_of t = None.
+Proof. unfold array_of. intros ->. reflexivity. Qed.
+
+Ltac rw_idx := match goal with I : IndexOK _ _ |- _ => apply index_ok_spec in I; rewrite I end.
+
+Lemma tc_index_spec a i r : tc_index a i = Some r <-> Index a i r.
+Proof.
+  unfold tc_index. split.
+  - intros H. destruct a as [[t|k] c|?]; try discriminate.
+    + destruct (underlying t) eqn:U;
+        try (destruct (index_ok i) as [z|] eqn:IO; [|discriminate]; inv H;
+             apply index_ok_spec in IO; eapply Ix_slice; eauto; fail);
+        try (destruct (assign_to i t0_1) eqn:A; [|discriminate]; inv H;
+             apply assign_to_spec in A; eapply Ix_map; eauto; fail);
+        (destruct (array_of t) as [[n' e']|] eqn:AO;
+         [ apply array_of_spec in AO; destruct (index_ok i) as [z|] eqn:IO; [|discriminate];
+           destruct (in_bound z n' false) eqn:IB; [|discriminate]; inv H;
+           apply index_ok_spec in IO; apply in_bound_spec in IB; eapply Ix_array; eauto
+         | destruct (is_string_ty t) eqn:S; [|discriminate];
+           destruct (index_ok i) as [z|] eqn:IO; [|discriminate]; inv H;
+           apply index_ok_spec in IO; apply is_string_ty_spec in S; eapply Ix_string; eauto ]).
+    + destruct k; try discriminate. destruct c; [|discriminate].
+      destruct (index_ok i) as [z|] eqn:IO; [|discriminate]. inv H.
+      apply index_ok_spec in IO. eapply Ix_const_string; eauto.
+  - intros H. inv H.
+    + rewrite H0. rw_idx. reflexivity.
+    + rewrite H0. apply assign_to_spec in H1. rewrite H1. reflexivity.
+    + pose proof H0 as AO. apply array_of_spec in AO. rewrite AO. rw_idx. apply in_bound_spec in H2. rewrite H2.
+      destruct H0 as [U|[p [U1 U2]]]; [rewrite U | rewrite U1]; reflexivity.
+    + destruct (string_ty_under t H0) as [b U]. rewrite U, (array_of_basic t b U).
+      apply is_string_ty_spec in H0. rewrite H0. rw_idx. reflexivity.
+    + rw_idx. reflexivity.
+Qed.
+
+Lemma tc_slice_spec (addr : bool) (A : Prop) a zl zh r :
+  (addr = true <-> A) -> (tc_slice addr a zl zh = Some r <-> Slice A a zl zh r).
+Proof.
+  intros HA. unfold tc_slice. split.
+  - intros H. destruct (bounds_ordered zl zh) eqn:BO; simpl in H; [|discriminate]. apply bounds_ordered_spec in BO.
+    destruct a as [[t|k] c|?]; try discriminate.
+    + destruct (underlying t) eqn:U;
+        try (destruct (is_string_ty t) eqn:S; [|discriminate]; inv H; apply is_string_ty_spec in S;
+             eapply Sl_string; eauto; fail).
+      * destruct (underlying t0) eqn:U0; try discriminate.
+        destruct (in_bound zl n true && in_bound zh n true) eqn:IB; [|discriminate]. inv H.
+        apply andb_prop in IB. destruct IB as [I1 I2]. apply in_bound_spec in I1. apply in_bound_spec in I2.
+        eapply Sl_ptr; eauto.
+      * inv H. eapply Sl_slice; eauto.
+      * destruct (addr && in_bound zl n true && in_bound zh n true) eqn:IB; [|discriminate]. inv H.
+        apply andb_prop in IB. destruct IB as [IB I2]. apply andb_prop in IB. destruct IB as [I0 I1].
+        apply in_bound_spec in I1. apply in_bound_spec in I2. apply HA in I0.
+        eapply Sl_array; eauto.
+    + destruct k; try discriminate. destruct c; [|discriminate]. inv H. apply Sl_const_string; assumption.
+  - intros H. inv H; match goal with B : BoundsOrdered _ _ |- _ => apply bounds_ordered_spec in B; rewrite B; simpl end.
+    + rewrite H0. reflexivity.
+    + rewrite H0. apply HA in H1. apply in_bound_spec in H3. apply in_bound_spec in H4. rewrite H1, H3, H4. reflexivity.
+    + rewrite H0, H1. apply in_bound_spec in H3. apply in_bound_spec in H4. rewrite H3, H4. reflexivity.
+    + destruct (string_ty_under t H0) as [b U]. rewrite U. apply is_string_ty_spec in H0. rewrite H0. reflexivity.
+    + reflexivity.
+Qed.
+
+Lemma tc_sel_spec a i r : tc_sel a i = Some r <-> Select a i r.
+Proof.
+  unfold tc_sel. split.
+  - intros H. destruct a as [[t|k] c|?]; try discriminate.
+    destruct (struct_of t) as [[fs b]|] eqn:S; [|discriminate].
+    destruct (nth_error fs (N.to_nat i)) as [f|] eqn:NE; [|discriminate]. inv H.
+    eapply Se_field; eauto. apply struct_of_spec. eauto.
+  - intros H. inv H. apply struct_of_spec in H0. destruct H0 as [b S]. rewrite S, H1. reflexivity.
+Qed.
+
+Lemma tc_deref_spec a r : tc_deref a = Some r <-> Deref a r.
+Proof.
+  unfold tc_deref. split.
+  - intros H. destruct a as [[t|k] c|?]; try discriminate.
+    destruct (underlying t) eqn:U; try discriminate. inv H. eapply De_ptr; eauto.
+  - intros H. inv H. rewrite H0. reflexivity.
+Qed.
+
+Lemma tc_assert_spec a t r : tc_assert a t = Some r <-> Assert a t r.
+Proof.
+  unfold tc_assert. split.
+  - intros H. destruct a as [[t2|k] c|?]; try discriminate.
+    destruct (is_iface t2 && wf_ty t) eqn:B; [|discriminate]. inv H.
+    apply andb_prop in B. destruct B as [B1 B2]. apply is_iface_spec in B1. constructor; assumption.
+  - intros H. inv H. apply is_iface_spec in H0. rewrite H0, H1. reflexivity.
+Qed.
+
+Lemma tc_len_spec cp nocalls a r : tc_len cp nocalls a = Some r <-> Len cp nocalls a r.
+Proof.
+  unfold tc_len. split.
+  - intros H. destruct a as [[t|k] c|?]; try discriminate.
+    + destruct (underlying t) eqn:U;
+        try (inv H; eapply Ln_slice; eauto; fail);
+        try (destruct cp; [discriminate|]; inv H; eapply Ln_map; eauto; fail);
+        (destruct (array_of t) as [[n' e']|] eqn:AO;
+         [ apply array_of_spec in AO; destruct nocalls; inv H; [eapply Ln_array_const | eapply Ln_array]; eauto
+         | destruct (is_string_ty t && negb cp) eqn:S; [|discriminate]; inv H;
+           apply andb_prop in S; destruct S as [S1 S2]; apply is_string_ty_spec in S1;
+           destruct cp; [discriminate|]; apply Ln_string; auto ]).
+    + destruct k; try discriminate. destruct c; [|discriminate]. destruct cp; [discriminate|]. inv H.
+      apply Ln_const_string. reflexivity.
+  - intros H. inv H.
+    + rewrite H0. reflexivity.
+    + rewrite H1. reflexivity.
+    + pose proof H0 as AO. apply array_of_spec in AO. rewrite AO.
+      destruct H0 as [U|[p [U1 U2]]]; [rewrite U | rewrite U1]; reflexivity.
+    + pose proof H0 as AO. apply array_of_spec in AO. rewrite AO.
+      destruct H0 as [U|[p [U1 U2]]]; [rewrite U | rewrite U1]; reflexivity.
+    + destruct (string_ty_under t H1) as [b U]. rewrite U, (array_of_basic t b U).
+      apply is_string_ty_spec in H1. rewrite H1. reflexivity.
+    + reflexivity.
+Qed.
+
+Lemma all_assign_elem_spec vs t : all_assign_elem vs t = true <-> Forall (fun v => Assignable v t) vs.
+Proof.
+  unfold all_assign_elem. rewrite forallb_forall, Forall_forall.
+  split; intros H x I; apply assign_to_spec; apply H; assumption.
+Qed.
+
+Lemma tc_append_spec a vs r : tc_append a vs = Some r <-> Append a vs r.
+Proof.
+  unfold tc_append. split.
+  - intros H. destruct a as [[t|k] c|?]; try discriminate.
+    destruct (underlying t) eqn:U; try discriminate.
+    destruct (all_assign_elem vs t0) eqn:A; [|discriminate]. inv H.
+    apply all_assign_elem_spec in A. eapply Ap_slice; eauto.
+  - intros H. inv H. rewrite H0. apply all_assign_elem_spec in H1. rewrite H1. reflexivity.
+Qed.
+
+Lemma tc_make_spec t vs r : tc_make t vs = Some r <-> Make t vs r.
+Proof.
+  unfold tc_make, size_ok. split.
+  - intros H. destruct (wf_ty t) eqn:W; simpl in H; [|discriminate].
+    destruct (underlying t) eqn:U; try discriminate.
+    + destruct vs as [|l [|c [|? ?]]]; try discriminate.
+      * destruct (index_ok l) as [z|] eqn:I; [|discriminate]. inv H. apply index_ok_spec in I. eapply Mk_slice1; eauto.
+      * destruct (index_ok l) as [zl|] eqn:I; [|discriminate]. destruct (index_ok c) as [zc|] eqn:I2; [|discriminate].
+        destruct (bounds_ordered zl zc) eqn:B; [|discriminate]. inv H.
+        apply index_ok_spec in I. apply index_ok_spec in I2. apply bounds_ordered_spec in B. eapply Mk_slice2; eauto.
+    + destruct vs as [|l [|? ?]]; try discriminate.
+      * inv H. eapply Mk_map0; eauto.
+      * destruct (index_ok l) as [z|] eqn:I; [|discriminate]. inv H. apply index_ok_spec in I. eapply Mk_map1; eauto.
+  - intros H. inv H; rewrite H0; simpl; rewrite H1.
+    + rw_idx. reflexivity.
+    + apply index_ok_spec in H2. apply index_ok_spec in H3. apply bounds_ordered_spec in H4. rewrite H2, H3, H4. reflexivity.
+    + reflexivity.
+    + rw_idx. reflexivity.
+Qed.
+
+Lemma tc_copy_spec d a r : tc_copy d a = Some r <-> Copy d a r.
+Proof.
+  unfold tc_copy. split.
+  - intros H. destruct d as [[td|k] cd|?]; try discriminate.
+    destruct (underlying td) eqn:U; try discriminate.
+    destruct a as [[ts|k] cs|?]; try discriminate.
+    + destruct (underlying ts) eqn:US;
+        try (destruct (is_string_ty ts && ty_eqb (underlying t) (TBasic BUint8)) eqn:B; [|discriminate]; inv H;
+             apply andb_prop in B; destruct B as [B1 B2]; apply is_string_ty_spec in B1; apply ty_eqb_spec in B2;
+             eapply Cp_string; eauto; fail).
+      destruct (ty_eqb t t0) eqn:Q; [|discriminate]. inv H. apply ty_eqb_spec in Q. subst.
+      eapply Cp_slices; eauto.
+    + destruct k; try discriminate. destruct cs; [|discriminate].
+      destruct (ty_eqb (underlying t) (TBasic BUint8)) eqn:B; [|discriminate]. inv H. apply ty_eqb_spec in B.
+      eapply Cp_const_string; eauto.
+  - intros H. inv H.
+    + rewrite H0, H1, ty_eqb_refl. reflexivity.
+    + rewrite H0. destruct (string_ty_under ts H2) as [b U]. rewrite U.
+      apply is_string_ty_spec in H2. rewrite H2, H1. reflexivity.
+    + rewrite H0, H1. reflexivity.
+Qed.
+
+Lemma tc_delete_spec m k r : tc_delete m k = Some r <-> Delete m k r.
+Proof.
+  unfold tc_delete. split.
+  - intros H. destruct m as [[t|k0] c|?]; try discriminate.
+    destruct (underlying t) eqn:U; try discriminate.
+    destruct (assign_to k t0_1) eqn:A; [|discriminate]. inv H. apply assign_to_spec in A. eapply Dl_map; eauto.
+  - intros H. inv H. rewrite H0. apply assign_to_spec in H1. rewrite H1. reflexivity.
+Qed.
+
+(* ---------------------------------------------------------- composite literals *)
+
+Lemma memZ_spec z l : memZ z l = true <-> In z l.
+Proof.
+  unfold memZ. rewrite existsb_exists. split.
+  - intros [y [H1 H2]]. apply Z.eqb_eq in H2. subst. assumption.
+  - intros H. exists z. split; [assumption|apply Z.eqb_refl].
+Qed.
+
+Lemma memZ_false z l : memZ z l = false <-> ~ In z l.
+Proof.
+  split.
+  - intros H I. apply memZ_spec in I. congruence.
+  - intros H. destruct (memZ z l) eqn:E; [|reflexivity]. apply memZ_spec in E. contradiction.
+Qed.
+
+Lemma memQ_false q l : memQ q l = false <-> (forall q2, In q2 l -> ~ Qeq q q2).
+Proof.
+  unfold memQ. split.
+  - intros H q2 I E. assert (X : existsb (Qeq_bool q) l = true).
+    { apply existsb_exists. exists q2. split; [assumption | apply Qeq_bool_iff; assumption]. }
+    congruence.
+  - intros H. destruct (existsb (Qeq_bool q) l) eqn:E; [|reflexivity].
+    apply existsb_exists in E. destruct E as [q2 [I Q]]. apply Qeq_bool_iff in Q. exfalso. eapply H; eauto.
+Qed.
+
+Lemma below_bound_pos cur bound :
+  in_bound (Some cur) (match bound with Some n => n | None => cur + 1 end) false = true <-> BelowBound cur bound.
+Proof.
+  unfold BelowBound. destruct bound as [n|]; simpl; rewrite Z.ltb_lt; [tauto|]. split; intros; [exact I|lia].
+Qed.
+
+(* rewrite the boolean form of every decidable premise in the context *)
+Ltac rwb := repeat match goal with
+  | X : (0 <= _)%Z |- _ => apply Z.leb_le in X; rewrite X; clear X
+  | X : ~ In _ _ |- _ => apply memZ_false in X; rewrite X; clear X
+  | X : Assignable _ _ |- _ => apply assign_to_spec in X; rewrite X; clear X
+  | X : nth_error _ _ = _ |- _ => rewrite X; clear X
+  | X : const_num _ = _ |- _ => rewrite X; clear X
+  | X : BelowBound _ _ |- _ => apply below_bound_pos in X; rewrite X; clear X
+  | X : forall q2, In q2 _ -> ~ Qeq _ q2 |- _ => rewrite (proj2 (memQ_false _ _) X); clear X
+  end.
+
+Lemma lit_struct_pos_spec fs its : lit_struct_pos fs its = true <-> LitStructPos fs its.
+Proof.
+  revert its. induction fs as [|f fs IH]; intros [|[v|z v|k v] its]; simpl; split; intros H;
+    try discriminate; try constructor; try (inv H; fail).
+  - apply andb_prop in H. destruct H. apply assign_to_spec. assumption.
+  - apply andb_prop in H. destruct H. apply IH. assumption.
+  - inv H. apply andb_true_intro. split; [apply assign_to_spec | apply IH]; assumption.
+Qed.
+
+Lemma lit_struct_pos_all_pos fs its : LitStructPos fs its -> all_pos its = true.
+Proof. induction 1; simpl; auto. Qed.
+
+Lemma lit_struct_key_spec fs its : forall seen, lit_struct_key fs seen its = true <-> LitStructKey fs seen its.
+Proof.
+  induction its as [|[v|z v|k v] its IH]; intros seen; simpl; split; intros H;
+    try discriminate; try constructor; try (inv H; fail).
+  - apply andb_prop in H. destruct H as [H H4]. apply andb_prop in H. destruct H as [H H3].
+    apply andb_prop in H. destruct H as [H1 H2].
+    destruct (nth_error fs (Z.to_nat z)) as [f|] eqn:NE; [|discriminate].
+    apply Z.leb_le in H1. apply negb_true_iff in H2. apply memZ_false in H2.
+    apply assign_to_spec in H3. apply IH in H4. eapply LSK_cons; eauto.
+  - inv H. match goal with X : LitStructKey _ _ _ |- _ => apply IH in X; rewrite X end. rwb. reflexivity.
+Qed.
+
+Lemma lit_struct_key_not_all_pos fs seen its : its <> [] -> LitStructKey fs seen its -> all_pos its = false.
+Proof. intros NE H. inv H; [contradiction|reflexivity]. Qed.
+
+Lemma lit_elems_spec bound e its : forall cur seen, lit_elems bound e cur seen its = true <-> LitElems bound e cur seen its.
+Proof.
+  induction its as [|[v|z v|k v] its IH]; intros cur seen; cbn [lit_elems]; split; intros H;
+    try discriminate; try (constructor; fail); try (inv H; fail).
+  - apply andb_prop in H. destruct H as [H H4]. apply andb_prop in H. destruct H as [H H3].
+    apply andb_prop in H. destruct H as [H1 H2].
+    apply below_bound_pos in H1. apply negb_true_iff in H2. apply memZ_false in H2.
+    apply assign_to_spec in H3. apply IH in H4. apply LE_pos; assumption.
+  - inv H. match goal with X : LitElems _ _ _ _ _ |- _ => apply IH in X; rewrite X end. rwb. reflexivity.
+  - apply andb_prop in H. destruct H as [H H5]. apply andb_prop in H. destruct H as [H H4].
+    apply andb_prop in H. destruct H as [H H3]. apply andb_prop in H. destruct H as [H1 H2].
+    apply Z.leb_le in H1. apply below_bound_pos in H2. apply negb_true_iff in H3. apply memZ_false in H3.
+    apply assign_to_spec in H4. apply IH in H5. apply LE_idx; assumption.
+  - inv H. match goal with X : LitElems _ _ _ _ _ |- _ => apply IH in X; rewrite X end. rwb. reflexivity.
+Qed.
+
+Lemma lit_map_spec k v its : forall seen, lit_map k v seen its = true <-> LitMap k v seen its.
+Proof.
+  induction its as [|[x|z x|tk tv] its IH]; intros seen; cbn [lit_map]; split; intros H;
+    try discriminate; try (constructor; fail); try (inv H; fail).
+  - apply andb_prop in H. destruct H as [H H3]. apply andb_prop in H. destruct H as [H1 H2].
+    apply assign_to_spec in H1. apply assign_to_spec in H2.
+    destruct (const_num tk) as [q|] eqn:CN.
+    + apply andb_prop in H3. destruct H3 as [H3 H4]. apply negb_true_iff in H3. pose proof (proj1 (memQ_false _ _) H3) as H3'.
+      apply IH in H4. eapply LM_const; eauto.
+    + apply IH in H3. apply LM_other; assumption.
+  - inv H; rwb; match goal with X : LitMap _ _ _ _ |- _ => apply IH in X; rewrite X end; reflexivity.
+Qed.
+
+Lemma tc_complit_spec t its r : tc_complit t its = Some r <-> CompLit t its r.
+Proof.
+  unfold tc_complit. split.
+  - intros H. destruct (wf_ty t) eqn:W; simpl in H; [|discriminate].
+    destruct (underlying t) eqn:U; try discriminate.
+    + destruct (lit_elems None t0 0 [] its) eqn:L; [|discriminate]. inv H.
+      apply lit_elems_spec in L. eapply CL_slice; eauto.
+    + destruct (lit_elems (Some n) t0 0 [] its) eqn:L; [|discriminate]. inv H.
+      apply lit_elems_spec in L. eapply CL_array; eauto.
+    + destruct (lit_map t0_1 t0_2 [] its) eqn:L; [|discriminate]. inv H.
+      apply lit_map_spec in L. eapply CL_map; eauto.
+    + destruct its as [|it its].
+      * inv H. eapply CL_struct_empty; eauto.
+      * destruct (all_pos (it :: its)) eqn:AP.
+        -- destruct (lit_struct_pos fs (it :: its)) eqn:L; [|discriminate]. inv H.
+           apply lit_struct_pos_spec in L. eapply CL_struct_pos; eauto. discriminate.
+        -- destruct (lit_struct_key fs [] (it :: its)) eqn:L; [|discriminate]. inv H.
+           apply lit_struct_key_spec in L. eapply CL_struct_key; eauto. discriminate.
+  - intros H. inv H; rewrite H0; simpl; rewrite H1.
+    + reflexivity.
+    + destruct its as [|it its]; [contradiction|]. rewrite (lit_struct_pos_all_pos _ _ H3).
+      apply lit_struct_pos_spec in H3. rewrite H3. reflexivity.
+    + destruct its as [|it its]; [contradiction|]. rewrite (lit_struct_key_not_all_pos _ _ _ H2 H3).
+      apply lit_struct_key_spec in H3. rewrite H3. reflexivity.
+    + apply lit_elems_spec in H2. rewrite H2. reflexivity.
+    + apply lit_elems_spec in H2. rewrite H2. reflexivity.
+    + apply lit_map_spec in H2. rewrite H2. reflexivity.
+Qed.
+
 (* --------------------------------------------------------------- expressions *)
 
 Scheme expr_mut := Induction for expr Sort Prop
-  with exprs_mut := Induction for exprs Sort Prop.
-Combined Scheme expr_exprs_ind from expr_mut, exprs_mut.
+  with exprs_mut := Induction for exprs Sort Prop
+  with elts_mut := Induction for elts Sort Prop.
+Combined Scheme expr_exprs_elts_ind from expr_mut, exprs_mut, elts_mut.
 
 Lemma args_ok_spec tas ps : args_ok tas ps = true <-> Forall2 Assignable tas ps.
 Proof.
@@ -477,78 +1187,226 @@ Proof.
   - inv H. apply andb_true_intro. split; [apply assign_to_spec; assumption | apply IH; assumption].
 Qed.
 
+Notation expr_P G E e :=
+  ((forall te, tc_expr G E e = Some te <-> has_type G E e te) /\
+   (addressable G E e = true <-> Addressable G E e)).
+Notation exprs_P G E es := (forall tes, tc_exprs G E es = Some tes <-> has_types G E es tes).
+Notation elts_P G E l := (forall its, tc_elts G E l = Some its <-> has_items G E l its).
+
+(* premises of the typing rules from the induction hypotheses *)
+Ltac solve_ht := match goal with
+  | IH : (forall te, _ <-> has_type ?G ?E ?a te) /\ _ |- has_type ?G ?E ?a _ => apply (proj1 IH); first [assumption | reflexivity]
+  | IH : forall tes, _ <-> has_types ?G ?E ?a tes |- has_types ?G ?E ?a _ => apply IH; first [assumption | reflexivity]
+  | IH : forall its, _ <-> has_items ?G ?E ?a its |- has_items ?G ?E ?a _ => apply IH; first [assumption | reflexivity]
+  end.
+
+(* the checker on the parts, from the premises of an inverted rule *)
+Ltac use_ih := repeat match goal with
+  | IH : expr_P ?G ?E ?a, Hx : has_type ?G ?E ?a _ |- _ => rewrite (proj2 (proj1 IH _) Hx); clear Hx
+  | IH : exprs_P ?G ?E ?a, Hx : has_types ?G ?E ?a _ |- _ => rewrite (proj2 (IH _) Hx); clear Hx
+  | IH : elts_P ?G ?E ?a, Hx : has_items ?G ?E ?a _ |- _ => rewrite (proj2 (IH _) Hx); clear Hx
+  end.
+
+Ltac dex H a := let A := fresh "A" in destruct (tc_expr _ _ a) eqn:A; [|discriminate H].
+Ltac no_addr := split; intros X; [discriminate X | inv X].
+
+Lemma has_bound_spec G E e (IH : expr_P G E e) z :
+  match e with EOmit => Some None | _ => match tc_expr G E e with Some t => index_ok t | None => None end end = Some z
+  <-> has_bound G E e z.
+Proof.
+  split.
+  - intros H. destruct (is_omit e) eqn:O.
+    + destruct e; try discriminate. inv H. constructor.
+    + assert (H2 : match tc_expr G E e with Some t => index_ok t | None => None end = Some z)
+        by (destruct e; try exact H; discriminate).
+      destruct (tc_expr G E e) as [te|] eqn:A; [|discriminate].
+      apply index_ok_spec in H2. eapply TB_index; [assumption | apply (proj1 IH); reflexivity | assumption].
+  - intros H. inv H; [reflexivity|].
+    apply (proj1 IH) in H1. apply index_ok_spec in H2.
+    destruct e; try discriminate; rewrite H1; exact H2.
+Qed.
+
+Lemma tc_expr_all G E :
+  (forall e, expr_P G E e) /\ (forall es, exprs_P G E es) /\ (forall l, elts_P G E l).
+Proof.
+  apply expr_exprs_elts_ind.
+  - (* ELitB *) intros. split; [|no_addr]. intros te; simpl; split; intros H; inv H; constructor.
+  - intros. split; [|no_addr]. intros te; simpl; split; intros H; inv H; constructor.
+  - intros. split; [|no_addr]. intros te; simpl; split; intros H; inv H; constructor.
+  - intros. split; [|no_addr]. intros te; simpl; split; intros H; inv H; constructor.
+  - intros. split; [|no_addr]. intros te; simpl; split; intros H; inv H; constructor.
+  - (* ENilE *) intros. split; [|no_addr]. intros te; simpl; split; intros H; inv H; constructor.
+  - (* EVar *) intros x. split.
+    + intros te; simpl; split; intros H.
+      * destruct (N.eqb_spec x blank) as [B|B]; [discriminate|].
+        destruct (lookup E x) as [[t|c|ps rs]|] eqn:L; try discriminate; inv H;
+          [apply T_Var | apply T_Const | apply T_FuncVal]; assumption.
+      * inv H; (destruct (N.eqb_spec x blank) as [B|B]; [contradiction|]);
+          match goal with L : lookup _ _ = _ |- _ => rewrite L end; reflexivity.
+    + simpl. split; intros H.
+      * destruct (N.eqb_spec x blank) as [B|B]; [discriminate|].
+        destruct (lookup E x) as [[t|c|ps rs]|] eqn:L; try discriminate. eapply Ad_var; eauto.
+      * inv H. destruct (N.eqb_spec x blank) as [B|B]; [contradiction|]. rewrite H2. reflexivity.
+  - (* EUn *) intros o a IHa. split; [|no_addr]. intros te; simpl; split; intros H.
+    + dex H a. eapply T_Un; [solve_ht | apply tc_unary_sound; assumption].
+    + inv H. use_ih. apply tc_unary_complete. assumption.
+  - (* EBin *) intros o a IHa b IHb. split; [|no_addr]. intros te; simpl; split; intros H.
+    + dex H a. dex H b. eapply T_Bin; [solve_ht | solve_ht | apply tc_binary_sound; assumption].
+    + inv H. use_ih. apply tc_binary_complete. assumption.
+  - (* EConv *) intros t a IHa. split; [|no_addr]. intros te; simpl; split; intros H.
+    + destruct (wf_ty t) eqn:W; simpl in H; [|discriminate]. dex H a.
+      eapply T_Conv; [assumption | solve_ht | apply tc_convert_sound; assumption].
+    + inv H. match goal with W : wf_ty _ = true |- _ => rewrite W end. simpl. use_ih. apply tc_convert_complete. assumption.
+  - (* ECall *) intros f args IHargs. split; [|no_addr]. intros te; simpl; split; intros H.
+    + destruct (lookup E f) as [[t|c|ps rs]|] eqn:L; try discriminate.
+      * destruct (tc_exprs G E args) as [tas|] eqn:A; [|discriminate].
+        destruct (underlying t) eqn:U; try discriminate.
+        destruct (args_ok tas ps) eqn:O; [|discriminate]. inv H.
+        eapply T_CallVar; [eassumption | eassumption | solve_ht | apply args_ok_spec; assumption].
+      * destruct (tc_exprs G E args) as [tas|] eqn:A; [|discriminate].
+        destruct (args_ok tas ps) eqn:O; [|discriminate]. inv H.
+        eapply T_Call; [eassumption | solve_ht | apply args_ok_spec; assumption].
+    + inv H; use_ih; match goal with L : lookup _ _ = _ |- _ => rewrite L end;
+        try match goal with U : underlying _ = _ |- _ => rewrite U end;
+        match goal with A : Forall2 _ _ _ |- _ => apply args_ok_spec in A; rewrite A end; reflexivity.
+  - (* EPkg *) intros p f args IHargs. split; [|no_addr]. intros te; simpl; split; intros H.
+    + destruct (memN p G) eqn:M; simpl in H; [|discriminate]. apply memN_spec in M.
+      destruct (pkg_sig p f) as [[ps rs]|] eqn:S; [|discriminate].
+      destruct (tc_exprs G E args) as [tas|] eqn:A; [|discriminate].
+      destruct (args_ok tas ps) eqn:O; [|discriminate]. inv H.
+      eapply T_Pkg; [assumption | eassumption | solve_ht | apply args_ok_spec; assumption].
+    + inv H. use_ih. match goal with M : In _ _ |- _ => apply memN_spec in M; rewrite M end. simpl.
+      match goal with L : pkg_sig _ _ = _ |- _ => rewrite L end.
+      match goal with A : Forall2 _ _ _ |- _ => apply args_ok_spec in A; rewrite A end. reflexivity.
+  - (* ECompLit *) intros t els IHels. split; [|no_addr]. intros te; simpl; split; intros H.
+    + destruct (tc_elts G E els) as [its|] eqn:A; [|discriminate].
+      eapply T_CompLit; [solve_ht | apply tc_complit_spec; assumption].
+    + inv H. use_ih. apply tc_complit_spec. assumption.
+  - (* EIndex *) intros a IHa i IHi. split.
+    + intros te; simpl; split; intros H.
+      * dex H a. dex H i. eapply T_Index; [solve_ht | solve_ht | apply tc_index_spec; assumption].
+      * inv H. use_ih. apply tc_index_spec. assumption.
+    + simpl. split; intros H.
+      * destruct (tc_expr G E a) as [[[t|k] c|?]|] eqn:A; try discriminate.
+        assert (HT : has_type G E a (EVal (VT t) c)) by (apply (proj1 IHa); reflexivity).
+        destruct (underlying t) eqn:U; try discriminate.
+        -- eapply Ad_index_ptr; eauto.
+        -- eapply Ad_index_slice; eauto.
+        -- eapply Ad_index_array; eauto. apply (proj2 IHa). assumption.
+      * inv H; match goal with X : has_type _ _ a _ |- _ => apply (proj1 IHa) in X; rewrite X end;
+          match goal with U : underlying _ = _ |- _ => rewrite U end; try reflexivity.
+        apply (proj2 IHa). assumption.
+  - (* ESliceE *) intros a IHa lo IHlo hi IHhi. split; [|no_addr]. intros te; cbn [tc_expr]; split; intros H.
+    + dex H a.
+      destruct (match lo with EOmit => Some None | _ => match tc_expr G E lo with Some t => index_ok t | None => None end end)
+        as [zl|] eqn:L; [|discriminate].
+      destruct (match hi with EOmit => Some None | _ => match tc_expr G E hi with Some t => index_ok t | None => None end end)
+        as [zh|] eqn:Hh; [|discriminate].
+      apply (has_bound_spec G E lo IHlo) in L. apply (has_bound_spec G E hi IHhi) in Hh.
+      eapply T_Slice; [solve_ht | eassumption | eassumption |].
+      apply (tc_slice_spec _ _ _ _ _ _ (proj2 IHa)). assumption.
+    + inv H. use_ih.
+      match goal with X : has_bound _ _ lo _ |- _ => apply (has_bound_spec G E lo IHlo) in X; rewrite X end.
+      match goal with X : has_bound _ _ hi _ |- _ => apply (has_bound_spec G E hi IHhi) in X; rewrite X end.
+      apply (tc_slice_spec _ _ _ _ _ _ (proj2 IHa)). assumption.
+  - (* EOmit *) split; [|no_addr]. intros te; simpl; split; intros H; [discriminate | inv H].
+  - (* EAddr *) intros a IHa. split; [|no_addr]. intros te; simpl; split; intros H.
+    + dex H a. unfold tc_addr in H. destruct e as [[t|k] c|?]; try discriminate.
+      destruct (addressable G E a || is_complit a) eqn:AD; [|discriminate]. inv H.
+      eapply T_Addr; [solve_ht|]. apply orb_prop in AD. destruct AD as [AD|AD]; [left; apply (proj2 IHa) | right]; assumption.
+    + inv H. use_ih. unfold tc_addr.
+      assert (AD : addressable G E a || is_complit a = true).
+      { match goal with X : _ \/ _ |- _ => destruct X as [AD|AD] end;
+          [apply (proj2 IHa) in AD; rewrite AD; reflexivity | rewrite AD; apply orb_true_r]. }
+      rewrite AD. reflexivity.
+  - (* EDeref *) intros a IHa. split.
+    + intros te; simpl; split; intros H.
+      * dex H a. eapply T_Deref; [solve_ht | apply tc_deref_spec; assumption].
+      * inv H. use_ih. apply tc_deref_spec. assumption.
+    + simpl. split; intros; [constructor | reflexivity].
+  - (* ESel *) intros a IHa i. split.
+    + intros te; simpl; split; intros H.
+      * dex H a. eapply T_Sel; [solve_ht | apply tc_sel_spec; assumption].
+      * inv H. use_ih. apply tc_sel_spec. assumption.
+    + simpl. split; intros H.
+      * destruct (tc_expr G E a) as [[[t|k] c|?]|] eqn:A; try discriminate.
+        assert (HT : has_type G E a (EVal (VT t) c)) by (apply (proj1 IHa); reflexivity).
+        destruct (underlying t) eqn:U;
+          try (eapply Ad_sel_struct; [eassumption | intros p0; rewrite U; discriminate | apply (proj2 IHa); assumption]; fail).
+        eapply Ad_sel_ptr; eauto.
+      * inv H; match goal with X : has_type _ _ a _ |- _ => apply (proj1 IHa) in X; rewrite X end.
+        -- match goal with U : underlying _ = _ |- _ => rewrite U end. reflexivity.
+        -- match goal with X : Addressable _ _ a |- _ => apply (proj2 IHa) in X end.
+           destruct (underlying t) eqn:U; try assumption.
+           exfalso. match goal with X : forall p, _ <> TPtr p |- _ => eapply X; reflexivity end.
+  - (* ELen *) intros a IHa. split; [|no_addr]. intros te; simpl; split; intros H.
+    + dex H a. eapply T_Len; [solve_ht | apply tc_len_spec; assumption].
+    + inv H. use_ih. apply tc_len_spec. assumption.
+  - (* ECap *) intros a IHa. split; [|no_addr]. intros te; simpl; split; intros H.
+    + dex H a. eapply T_Cap; [solve_ht | apply tc_len_spec; assumption].
+    + inv H. use_ih. apply tc_len_spec. assumption.
+  - (* EAppend *) intros a IHa args IHargs. split; [|no_addr]. intros te; simpl; split; intros H.
+    + dex H a. destruct (tc_exprs G E args) as [tas|] eqn:B; [|discriminate].
+      eapply T_Append; [solve_ht | solve_ht | apply tc_append_spec; assumption].
+    + inv H. use_ih. apply tc_append_spec. assumption.
+  - (* EMake *) intros t args IHargs. split; [|no_addr]. intros te; simpl; split; intros H.
+    + destruct (tc_exprs G E args) as [tas|] eqn:B; [|discriminate].
+      eapply T_Make; [solve_ht | apply tc_make_spec; assumption].
+    + inv H. use_ih. apply tc_make_spec. assumption.
+  - (* ENew *) intros t. split; [|no_addr]. intros te; simpl; unfold tc_new; split; intros H.
+    + destruct (wf_ty t) eqn:W; [|discriminate]. inv H. constructor. assumption.
+    + inv H. match goal with W : wf_ty _ = true |- _ => rewrite W end. reflexivity.
+  - (* ECopy *) intros d IHd a IHa. split; [|no_addr]. intros te; simpl; split; intros H.
+    + dex H d. dex H a. eapply T_Copy; [solve_ht | solve_ht | apply tc_copy_spec; assumption].
+    + inv H. use_ih. apply tc_copy_spec. assumption.
+  - (* EDelete *) intros m IHm k IHk. split; [|no_addr]. intros te; simpl; split; intros H.
+    + dex H m. dex H k. eapply T_Delete; [solve_ht | solve_ht | apply tc_delete_spec; assumption].
+    + inv H. use_ih. apply tc_delete_spec. assumption.
+  - (* EAssert *) intros a IHa t. split; [|no_addr]. intros te; simpl; split; intros H.
+    + dex H a. eapply T_Assert; [solve_ht | apply tc_assert_spec; assumption].
+    + inv H. use_ih. apply tc_assert_spec. assumption.
+  - (* ENone *) intros tes; simpl; split; intros H; inv H; constructor.
+  - (* ECons *) intros e IHe r IHr tes; simpl; split; intros H.
+    + dex H e. destruct (tc_exprs G E r) as [ts|] eqn:B; [|discriminate]. inv H. constructor; solve_ht.
+    + inv H. use_ih. reflexivity.
+  - (* LNil *) intros its; simpl; split; intros H; inv H; constructor.
+  - (* LPos *) intros e IHe r IHr its; simpl; split; intros H.
+    + dex H e. destruct (tc_elts G E r) as [ts|] eqn:B; [|discriminate]. inv H. constructor; solve_ht.
+    + inv H. use_ih. reflexivity.
+  - (* LIdx *) intros z e IHe r IHr its; simpl; split; intros H.
+    + dex H e. destruct (tc_elts G E r) as [ts|] eqn:B; [|discriminate]. inv H. constructor; solve_ht.
+    + inv H. use_ih. reflexivity.
+  - (* LKey *) intros k IHk e IHe r IHr its; simpl; split; intros H.
+    + dex H k. dex H e. destruct (tc_elts G E r) as [ts|] eqn:B; [|discriminate]. inv H. constructor; solve_ht.
+    + inv H. use_ih. reflexivity.
+Qed.
+
 Lemma tc_expr_sound G E :
   (forall e te, tc_expr G E e = Some te -> has_type G E e te) /\
   (forall es tes, tc_exprs G E es = Some tes -> has_types G E es tes).
 Proof.
-  apply expr_exprs_ind; simpl; intros.
-  - inv H. constructor.
-  - inv H. constructor.
-  - inv H. constructor.
-  - inv H. constructor.
-  - inv H. constructor.
-  - discriminate.
-  - destruct (N.eqb_spec x blank) as [B|B]; [discriminate|].
-    destruct (lookup E x) as [[t|c|ps rs]|] eqn:L; try discriminate.
-    + inv H. apply T_Var; assumption.
-    + inv H. apply T_Const; assumption.
-  - destruct (tc_expr G E e) as [ta|] eqn:A; [|discriminate].
-    eapply T_Un; [apply H; reflexivity | apply tc_unary_sound; assumption].
-  - destruct (tc_expr G E a) as [ta|] eqn:A; [|discriminate].
-    destruct (tc_expr G E b) as [tb|] eqn:B; [|discriminate].
-    eapply T_Bin; [apply H; reflexivity | apply H0; reflexivity | apply tc_binary_sound; assumption].
-  - destruct (tc_expr G E e) as [ta|] eqn:A; [|discriminate].
-    eapply T_Conv; [apply H; reflexivity | apply tc_convert_sound; assumption].
-  - destruct (lookup E f) as [[t|c|ps rs]|] eqn:L; try discriminate.
-    destruct (tc_exprs G E args) as [tas|] eqn:A; [|discriminate].
-    destruct (args_ok tas ps) eqn:O; [|discriminate]. inv H0.
-    eapply T_Call; [eassumption | apply H; reflexivity | apply args_ok_spec; assumption].
-  - destruct (memN p G) eqn:M; simpl in H0; [|discriminate]. apply memN_spec in M.
-    destruct (pkg_sig p f) as [[ps rs]|] eqn:S; [|discriminate].
-    destruct (tc_exprs G E args) as [tas|] eqn:A; [|discriminate].
-    destruct (args_ok tas ps) eqn:O; [|discriminate]. inv H0.
-    eapply T_Pkg; [assumption | eassumption | apply H; reflexivity | apply args_ok_spec; assumption].
-  - inv H. constructor.
-  - destruct (tc_expr G E e) as [t|] eqn:A; [|discriminate].
-    destruct (tc_exprs G E r) as [ts|] eqn:B; [|discriminate]. inv H1.
-    constructor; [apply H | apply H0]; reflexivity.
+  destruct (tc_expr_all G E) as [H1 [H2 _]]. split.
+  - intros e te. apply (proj1 (H1 e)).
+  - intros es tes. apply H2.
 Qed.
-
-Ltac use_ih := repeat match goal with
-  | IH : forall te, has_type _ _ ?e te -> _ = Some te, Hx : has_type _ _ ?e _ |- _ => rewrite (IH _ Hx); clear Hx
-  | IH : forall tes, has_types _ _ ?e tes -> _ = Some tes, Hx : has_types _ _ ?e _ |- _ => rewrite (IH _ Hx); clear Hx
-  end.
 
 Lemma tc_expr_complete G E :
   (forall e te, has_type G E e te -> tc_expr G E e = Some te) /\
   (forall es tes, has_types G E es tes -> tc_exprs G E es = Some tes).
 Proof.
-  apply expr_exprs_ind; simpl; intros.
-  - inv H. reflexivity.
-  - inv H. reflexivity.
-  - inv H. reflexivity.
-  - inv H. reflexivity.
-  - inv H. reflexivity.
-  - inv H.
-  - inv H; (destruct (N.eqb_spec x blank) as [B|B]; [contradiction|]);
-      match goal with L : lookup _ _ = _ |- _ => rewrite L end; reflexivity.
-  - inv H0. use_ih. apply tc_unary_complete. assumption.
-  - inv H1. use_ih. apply tc_binary_complete. assumption.
-  - inv H0. use_ih. apply tc_convert_complete. assumption.
-  - inv H0. use_ih. match goal with L : lookup _ _ = _ |- _ => rewrite L end.
-    match goal with A : Forall2 _ _ _ |- _ => apply args_ok_spec in A; rewrite A end. reflexivity.
-  - inv H0. use_ih. match goal with M : In _ _ |- _ => apply memN_spec in M; rewrite M end. simpl.
-    match goal with L : pkg_sig _ _ = _ |- _ => rewrite L end.
-    match goal with A : Forall2 _ _ _ |- _ => apply args_ok_spec in A; rewrite A end. reflexivity.
-  - inv H. reflexivity.
-  - inv H1. use_ih. reflexivity.
+  destruct (tc_expr_all G E) as [H1 [H2 _]]. split.
+  - intros e te. apply (proj1 (H1 e)).
+  - intros es tes. apply H2.
 Qed.
 
 Theorem tc_expr_iff G E e te : tc_expr G E e = Some te <-> has_type G E e te.
-Proof. split; [apply tc_expr_sound | apply tc_expr_complete]. Qed.
+Proof. apply (tc_expr_all G E). Qed.
 
 Theorem tc_exprs_iff G E es tes : tc_exprs G E es = Some tes <-> has_types G E es tes.
-Proof. split; [apply tc_expr_sound | apply tc_expr_complete]. Qed.
+Proof. apply (tc_expr_all G E). Qed.
+
+Theorem addressable_iff G E e : addressable G E e = true <-> Addressable G E e.
+Proof. apply (tc_expr_all G E). Qed.
 
 (* ---------------------------------------------------------------- statements *)
 
@@ -751,6 +1609,36 @@ Proof.
     + apply andb_false_iff. right. apply IH. exists y. auto.
 Qed.
 
+Lemma is_map_index_spec G E l : is_map_index G E l = true <-> MapIndex G E l.
+Proof.
+  unfold is_map_index. split.
+  - intros H. destruct l; try discriminate.
+    destruct (tc_expr G E l1) as [[[t|k] c|?]|] eqn:A; try discriminate. apply tc_expr_iff in A.
+    destruct (underlying t) eqn:U; try discriminate. eapply MI_index; eauto.
+  - intros H. inv H. apply tc_expr_iff in H0. rewrite H0, H1. reflexivity.
+Qed.
+
+Lemma range_types_spec te tk tv : range_types te = Some (tk, tv) <-> RangeTypes te tk tv.
+Proof.
+  unfold range_types. split.
+  - intros H. destruct te as [[t|k] c|?]; try discriminate.
+    + destruct (underlying t) eqn:U;
+        try (inv H; eapply RT_slice; eauto; fail);
+        try (inv H; eapply RT_map; eauto; fail);
+        (destruct (array_of t) as [[n' e']|] eqn:AO;
+         [ apply array_of_spec in AO; inv H; eapply RT_array; eauto
+         | destruct (is_string_ty t) eqn:S; [|discriminate]; inv H; apply is_string_ty_spec in S; apply RT_string; assumption ]).
+    + destruct k; try discriminate. destruct c; [|discriminate]. inv H. constructor.
+  - intros H. inv H.
+    + rewrite H0. reflexivity.
+    + rewrite H0. reflexivity.
+    + pose proof H0 as AO. apply array_of_spec in AO. rewrite AO.
+      destruct H0 as [U|[p [U1 U2]]]; [rewrite U | rewrite U1]; reflexivity.
+    + destruct (string_ty_under t H0) as [b U]. rewrite U, (array_of_basic t b U).
+      apply is_string_ty_spec in H0. rewrite H0. reflexivity.
+    + reflexivity.
+Qed.
+
 Ltac sinv H := match type of H with Some ?a = Some ?b => let Q := fresh in assert (Q : a = b) by congruence; clear H; subst end.
 
 Lemma tc_stmt_sound G :
@@ -764,6 +1652,7 @@ Proof.
     destruct (nodup_names xs && all_fresh E xs) eqn:NF; cbn [negb] in H; [|discriminate].
     apply andb_prop in NF. destruct NF as [ND AF].
     apply nodup_names_spec in ND. pose proof (proj1 (all_fresh_spec E xs) AF) as FR.
+    destruct (match t with Some t0 => wf_ty t0 | None => true end) eqn:WF; cbn [negb] in H; [|discriminate].
     destruct xs as [|x xs']; [discriminate|].
     assert (NE : x :: xs' <> []) by discriminate.
     destruct es as [|e r].
@@ -803,7 +1692,9 @@ Proof.
     { intros B. apply in_head_false. destruct (N.eqb_spec x blank); [contradiction|]. exact F. }
     destruct (tc_expr G E e) as [[v [c|]|?]|] eqn:TE; try discriminate. apply tc_expr_iff in TE.
     destruct t as [t|].
-    + destruct v as [t'|k].
+    + destruct (bclass_eqb (tclass t) KComp) eqn:KC; [discriminate|].
+      assert (NC : tclass t <> KComp) by (intros X; apply bclass_eqb_spec in X; congruence).
+      destruct v as [t'|k].
       * destruct (ty_eqb t' t) eqn:Q; [|discriminate]. apply ty_eqb_spec in Q. subst. sinv H.
         apply S_ConstTyped; assumption.
       * destruct (conv_untyped k (Some c) t) as [r|] eqn:CU; [|discriminate].
@@ -840,7 +1731,7 @@ Proof.
     intros x cx E E' H. cbn [tc_stmt] in H.
     destruct (N.eqb_spec x blank) as [B|B]; [discriminate|].
     destruct (lookup E x) as [[t|?|? ?]|] eqn:LK; try discriminate.
-    destruct (is_numeric (class_of (under t))) eqn:N; [|discriminate]. apply is_numeric_spec in N.
+    destruct (is_numeric (tclass t)) eqn:N; [|discriminate]. apply is_numeric_spec in N.
     sinv H. eapply S_IncDec; eassumption.
   - (* SExpr *)
     intros e cx E E' H. cbn [tc_stmt] in H.
@@ -883,6 +1774,31 @@ Proof.
   - (* SBlock *)
     intros b IHb cx E E' H. cbn [tc_stmt] in H.
     destruct (tc_block G cx ([] :: E) b) eqn:F; [|discriminate]. sinv H. apply S_Block; auto.
+  - (* SSet *)
+    intros l e cx E E' H. cbn [tc_stmt] in H.
+    destruct (is_lvalue_form l) eqn:LV; cbn [negb] in H; [|discriminate].
+    destruct (tc_expr G E l) as [[[t|k] c|?]|] eqn:TL; try discriminate. apply tc_expr_iff in TL.
+    destruct (tc_expr G E e) as [te|] eqn:TE; [|discriminate]. apply tc_expr_iff in TE.
+    destruct ((addressable G E l || is_map_index G E l) && assign_to te t) eqn:F; [|discriminate].
+    apply andb_prop in F. destruct F as [F1 F2]. apply assign_to_spec in F2. sinv H.
+    eapply S_Set; try eassumption.
+    apply orb_prop in F1. destruct F1 as [F1|F1]; [left; apply addressable_iff; assumption | right; apply is_map_index_spec; assumption].
+  - (* SRange *)
+    intros k v def e b IHb cx E E' H. cbn [tc_stmt] in H.
+    destruct (tc_expr G E e) as [te|] eqn:TE; [|discriminate]. apply tc_expr_iff in TE.
+    destruct (range_types te) as [[tk tv]|] eqn:RT; [|discriminate]. apply range_types_spec in RT.
+    destruct def.
+    + destruct (nodup_names [k; v] && forallb (fun x => N.eqb x blank || memN x (fu_block [] b)) [k; v]
+                && tc_block G (in_loop cx) ([] :: declare_vars ([] :: E) [k; v] [tk; tv]) b) eqn:F; [|discriminate].
+      apply andb_prop in F. destruct F as [F F3]. apply andb_prop in F. destruct F as [F1 F2].
+      apply nodup_names_spec in F1. rewrite forallb_forall in F2. sinv H.
+      eapply S_RangeDef; eauto.
+      intros x I B. specialize (F2 x I). apply orb_prop in F2. destruct F2 as [F2|F2].
+      * apply N.eqb_eq in F2. contradiction.
+      * apply memN_spec. assumption.
+    + destruct (assign_targets E [k; v] [EVal (VT tk) None; EVal (VT tv) None] && tc_block G (in_loop cx) ([] :: E) b) eqn:F; [|discriminate].
+      apply andb_prop in F. destruct F as [F1 F2]. apply assign_targets_spec in F1. sinv H.
+      eapply S_RangeAssign; eauto.
   - (* BNil *)
     intros. constructor.
   - (* BCons *)
@@ -905,6 +1821,7 @@ Proof. unfold is_arith. intros -> ->. reflexivity. Qed.
 Ltac rw_nodup := match goal with ND : NoDupNames _ |- _ => apply nodup_names_spec in ND; rewrite ND; clear ND end.
 Ltac rw_fresh := match goal with FR : forall x, In x _ -> x <> blank -> ~ InHead _ x |- _ =>
                                  apply all_fresh_spec in FR; rewrite FR; clear FR end.
+Ltac rw_wf := match goal with W : wf_ty _ = true |- _ => rewrite W; clear W end.
 Ltac rw_exprs := match goal with T : has_types _ _ _ _ |- _ => apply tc_exprs_iff in T; rewrite T; clear T end.
 Ltac rw_expr := match goal with T : has_type _ _ _ _ |- _ => apply tc_expr_iff in T; rewrite T; clear T end.
 Ltac rw_values := match goal with V : Values _ _ _ |- _ => apply tuple_or_values_spec in V; rewrite V; clear V end.
@@ -921,9 +1838,9 @@ Proof.
   - (* SVar *)
     intros xs t es cx E E' H.
     inv H; (destruct xs as [|x xs']; [contradiction|]).
-    + cbn [tc_stmt]. rw_nodup. rw_fresh. reflexivity.
+    + cbn [tc_stmt]. rw_nodup. rw_fresh. rw_wf. reflexivity.
     + destruct es as [|e r]; [contradiction|].
-      cbn [tc_stmt]. rw_nodup. rw_fresh. cbn [andb negb]. rw_exprs.
+      cbn [tc_stmt]. rw_nodup. rw_fresh. rw_wf. cbn [andb negb]. rw_exprs.
       match goal with V : Values _ _ _ |- _ => pose proof (Values_length _ _ _ V) as LEN end.
       rw_values.
       match goal with A : Forall _ vs |- _ =>
@@ -937,10 +1854,12 @@ Proof.
     intros x t e cx E E' H. cbn [tc_stmt].
     assert (FR : forall P : Prop, (x <> blank -> ~ InHead E x) -> negb (N.eqb x blank) && in_head E x = false).
     { intros _ F. destruct (N.eqb_spec x blank) as [B|B]; [reflexivity|]. apply in_head_false. auto. }
+    assert (KC : forall t0, tclass t0 <> KComp -> bclass_eqb (tclass t0) KComp = false).
+    { intros t0 N. destruct (bclass_eqb (tclass t0) KComp) eqn:X; [|reflexivity]. apply bclass_eqb_spec in X. contradiction. }
     inv H; (rewrite (FR True); [|assumption]); rw_expr.
     + reflexivity.
-    + rewrite ty_eqb_refl. reflexivity.
-    + match goal with C : ConvUntyped _ _ _ |- _ =>
+    + rewrite KC by assumption. rewrite ty_eqb_refl. reflexivity.
+    + rewrite KC by assumption. match goal with C : ConvUntyped _ _ _ |- _ =>
         assert (CU : conv_untyped k (Some c) t0 = Some (EVal (VT t0) (Some c))) by (apply conv_untyped_spec; auto) end.
       rewrite CU. reflexivity.
   - (* SShort *)
@@ -989,6 +1908,26 @@ Proof.
     intros cx E E' H. cbn [tc_stmt]. inv H. match goal with B : cx_loop _ = true |- _ => rewrite B end. reflexivity.
   - (* SBlock *)
     intros b IHb cx E E' H. cbn [tc_stmt]. inv H. rewrite IHb by assumption. reflexivity.
+  - (* SSet *)
+    intros l e cx E E' H. cbn [tc_stmt]. inv H.
+    match goal with L : is_lvalue_form _ = true |- _ => rewrite L end. cbn [negb].
+    match goal with T : has_type _ _ l _ |- _ => apply tc_expr_iff in T; rewrite T; clear T end.
+    rw_expr.
+    match goal with A : Assignable _ _ |- _ => apply assign_to_spec in A; rewrite A end.
+    match goal with X : _ \/ _ |- _ => destruct X as [AD|AD] end.
+    + apply addressable_iff in AD. rewrite AD. reflexivity.
+    + apply is_map_index_spec in AD. rewrite AD, orb_true_r. reflexivity.
+  - (* SRange *)
+    intros k v def e b IHb cx E E' H. cbn [tc_stmt]. inv H; rw_expr;
+      match goal with R : RangeTypes _ _ _ |- _ => apply range_types_spec in R; rewrite R end.
+    + rw_nodup.
+      match goal with U : forall x, In x [k; v] -> _ |- _ =>
+        assert (F : forallb (fun x => N.eqb x blank || memN x (fu_block [] b)) [k; v] = true) end.
+      { apply forallb_forall. intros x I. destruct (N.eqb_spec x blank) as [B|B]; [reflexivity|].
+        simpl. apply memN_spec. auto. }
+      rewrite F. rewrite IHb by assumption. reflexivity.
+    + match goal with A : AssignTargets _ _ _ |- _ => apply assign_targets_spec in A; rewrite A end.
+      rewrite IHb by assumption. reflexivity.
   - (* BNil *)
     intros. reflexivity.
   - (* BCons *)
@@ -1107,13 +2046,20 @@ Proof.
     simpl. apply IH. assumption.
 Qed.
 
+Lemma forallb_wf_spec l : forallb wf_ty l = true <-> (forall t, In t l -> wf_ty t = true).
+Proof. apply forallb_forall. Qed.
+
 Lemma tc_func_iff G E f : tc_func G E f = true <-> func_ok G E f.
 Proof.
   unfold tc_func, func_ok. split.
-  - intros H. apply andb_prop in H. destruct H as [H1 H]. apply andb_prop in H. destruct H as [H2 H3].
-    split; [apply nodup_names_spec; assumption|]. split; [apply tc_block_iff; assumption|].
+  - intros H. apply andb_prop in H. destruct H as [H H5]. apply andb_prop in H. destruct H as [H H4].
+    apply andb_prop in H. destruct H as [H1 H3].
+    apply andb_prop in H5. destruct H5 as [H5 H6].
+    split; [apply nodup_names_spec; assumption|]. split; [apply forallb_wf_spec; assumption|].
+    split; [apply forallb_wf_spec; assumption|]. split; [apply tc_block_iff; assumption|].
     intros NE. apply term_block_iff. destruct (fn_results f); [contradiction|assumption].
-  - intros [H1 [H2 H3]]. apply nodup_names_spec in H1. apply tc_block_iff in H2. rewrite H1, H2. simpl.
+  - intros [H1 [W1 [W2 [H2 H3]]]]. apply nodup_names_spec in H1. apply tc_block_iff in H2.
+    apply forallb_wf_spec in W1. apply forallb_wf_spec in W2. rewrite H1, H2, W1, W2. simpl.
     destruct (fn_results f); [reflexivity|]. apply term_block_iff. apply H3. discriminate.
 Qed.
 
